@@ -97,6 +97,7 @@ type Node struct {
 	RepentChain       []refmodel.Hdr
 	MarkHash          refmodel.Hash // a getheaders answer that contains the header with this hash is logged with " [marked]"
 	VersionLag        int           // the version message reports a height this many blocks below the node's chain (blocks found since)
+	InvBatch          int           // inv announcements list the last InvBatch blocks (0/1: the tip only)
 	DropAfterHeight   int           // close the connection right after sending the first getheaders answer that contains this height (0 = never)
 	droppedAfter      bool
 	StallAfterMsg     int              // on every connection: stop answering getheaders after the n-th message (0 = never)
@@ -568,13 +569,16 @@ func WireHeader(h refmodel.Hdr) *wire.BlockHeader {
 	}
 }
 
-// AnnounceInv announces by inv on this connection: the node's tip, preceded (in every second or third announcement) by
-// the one or two blocks below it - as a node does that batches its announcements; the peer may know the earlier entries.
+// AnnounceInv announces by inv on this connection: the node's tip, preceded by the InvBatch-1 blocks below it - as a node
+// does that batches its announcements; the peer may know the earlier entries.
 func (c *Conn) AnnounceInv() error {
 	n := c.node
 	n.mu.Lock()
 	height := len(n.chain)
-	k := 1 + (c.ID+height)%3
+	k := n.InvBatch
+	if k < 1 {
+		k = 1
+	}
 	if k > height {
 		k = height
 	}
@@ -624,6 +628,17 @@ func (c *Conn) Announce() error {
 		return c.AnnounceHeaders()
 	}
 	return c.AnnounceInv()
+}
+
+// RewindPeerKnown lowers what the service is assumed to have of the node's chain (the next headers announcement starts
+// right above it again).
+func (c *Conn) RewindPeerKnown(h int32) {
+	if h < 0 {
+		h = 0
+	}
+	if atomic.LoadInt32(&c.peerKnown) > h {
+		atomic.StoreInt32(&c.peerKnown, h)
+	}
 }
 
 // SetPeerKnown records that the service has the node's chain up to this height (e.g. after sync).
